@@ -164,17 +164,23 @@ Example family_d_rejected :
 Proof. repeat split; vm_compute; reflexivity. Qed.
 
 (* ---------------------------------------------------------------------------------------------
-   VerifyDualProofV2 with sourceTxID = targetTxID returns nil without comparing the two headers or
-   the two Alh values: a forged header for the trusted transaction id is "verified".  (The only
-   caller in the repository, pkg/verification.VerifyDocument, compares both Alh values with the
-   document's transaction header itself.) *)
+   HISTORICAL (closed by /repo commit dd8ca50): VerifyDualProofV2 with sourceTxID = targetTxID
+   returned nil without comparing the two headers or the two Alh values: a forged header for the
+   trusted transaction id was "verified". *)
+Definition same_id_proof : dual_proof_v2 :=
+  {| d2_src := Some h2f; d2_tgt := Some h2; d2_incl := []; d2_cons := [] |}.
+
 Theorem dual_proof_v2_same_id_refuted :
   exists p salh talh,
-    verify_dual_proof_v2 Hs (Some p) 2 2 salh talh = Ok true /\ salh <> talh.
+    verify_dual_proof_v2_gen Hs false (Some p) 2 2 salh talh = Ok true /\ salh <> talh.
 Proof.
-  exists {| d2_src := Some h2f; d2_tgt := Some h2; d2_incl := []; d2_cons := [] |}, X, A2.
-  split; [vm_compute; reflexivity | vm_compute; discriminate].
+  exists same_id_proof, X, A2. split; [vm_compute; reflexivity | vm_compute; discriminate].
 Qed.
+
+(* the verifier as it stands rejects it *)
+Example dual_proof_v2_same_id_rejected :
+  verify_dual_proof_v2 Hs (Some same_id_proof) 2 2 X A2 = Ok false.
+Proof. vm_compute. reflexivity. Qed.
 
 (* ---------------------------------------------------------------------------------------------
    Alh does not commit to NEntries outside the width of the cast in innerHash: uint16(NEntries) in
